@@ -966,6 +966,9 @@ void runCase(const Script &script, const Ctx &c, Ev &ev)
             return;
         w.hist(" [clientConnected(" + q(jid) + ")]");
         ev.label("signal:clientConnected-for-attacker");
+        // the server announces the full JID it has bound for the connection; the bind result that tells the client may never
+        // arrive (the same write can make the server close the stream), the binding is real all the same
+        w.boundJids.insert(jid);
         auto ok = w.approvedBare();
         if (!ok.contains(bareOf(jid)))
             w.violation("c16 clientConnected-unapproved " + jidClass(jid),
